@@ -17,12 +17,22 @@ VALUE_MENU = [Fraction(0), Fraction(1), Fraction(1, 2), Fraction(1, 4), Fraction
               Fraction(5, 10 ** 9), Fraction(1, 5), Fraction(7, 10)]
 
 
+OP_KINDS = ['set', 'set', 'set', 'del', 'del', 'dense', 'sparse', 'sparse', 'normalize', 'setbase', 'copy', 'copy-mutate']
+# tail of a directed history: assignments dominate, every other operation still occurs
+TAIL_KINDS = ['set', 'set', 'set', 'set', 'del', 'dense', 'sparse', 'normalize', 'normalize', 'setbase', 'copy', 'copy-mutate']
+# the boundary states of the stored table a directed history is steered into before it goes on at random
+BOUNDARY_KINDS = ['del-all', 'del-all', 'zero-all', 'zero-all', 'keep-one', 'fill-all']
+
+
 class C09(object):
     id = 'C09'
     rule = ("initial joint or scalar distributions (sparse/dense, trimmed or not, 6 bases, Cartesian or custom spaces) x "
             "histories of 1-25 operations over {d[o]=v, del d[o], make_dense, make_sparse(trim), normalize, set_base(b), "
             "copy (continue on the copy, mutate the original behind its back)} with outcomes inside and outside the "
-            "sample space and values incl. 0, 1 and the null log-probability; state compared after every operation; "
+            "sample space and values incl. 0, 1 and the null log-probability; plus directed histories that first steer "
+            "the stored table into a boundary state (every stored outcome deleted / every value zeroed [and trimmed away: "
+            "nothing stored], all but one removed, every member of the space stored), then change the representation "
+            "(make_dense / make_sparse / set_base / copy) and go on at random; state compared after every operation; "
             "non-trivial = the history contains a set of an unstored outcome or a delete of a stored one, and >= 3 ops")
     tolerances = {'values': 'rtol 1e-9 in the linear domain (normalize/set_base involve float arithmetic); read-back of a just-written value is bit-exact (oracle)'}
     exhaustive = {'thorough': True}
@@ -38,31 +48,74 @@ class C09(object):
             members = self.space_members(c)
             ops = []
             for _ in range(rng.randint(1, 25)):
-                k = rng.choice(['set', 'set', 'set', 'del', 'del', 'dense', 'sparse', 'sparse', 'normalize', 'setbase',
-                                'copy', 'copy-mutate'])
-                if k in ('set', 'del'):
-                    if rng.random() < 0.12:
-                        o = [9] * c['n']
-                    elif rng.random() < 0.08:
-                        # an outcome of the wrong length whose symbols are all valid ones
-                        m_ = rng.choice(members)
-                        o = rng.choice([m_[:-1], m_ + [m_[-1]], m_ + m_])
-                    else:
-                        o = rng.choice(members)
-                    if k == 'set':
-                        ops.append(['set', o, str(rng.choice(VALUE_MENU))])
-                    else:
-                        ops.append(['del', o])
-                elif k == 'sparse':
-                    ops.append(['sparse', rng.random() < 0.6])
-                elif k == 'setbase':
-                    ops.append(['setbase', rng.choice(gen.BASES)])
-                elif k == 'copy-mutate':
-                    ops.append(['copy-mutate', rng.choice(members), str(rng.choice(VALUE_MENU))])
-                else:
-                    ops.append([k])
+                ops.append(self.rand_op(rng, c, members, OP_KINDS))
             c['ops'] = ops
             yield c
+        # directed histories (after the random stream, which therefore is what it always was)
+        for _ in range(80 if tier == 'quick' else 4000):
+            yield self.directed_case(rng)
+
+    def rand_op(self, rng, c, members, kinds):
+        k = rng.choice(kinds)
+        if k in ('set', 'del'):
+            if rng.random() < 0.12:
+                o = [9] * c['n']
+            elif rng.random() < 0.08:
+                # an outcome of the wrong length whose symbols are all valid ones
+                m_ = rng.choice(members)
+                o = rng.choice([m_[:-1], m_ + [m_[-1]], m_ + m_])
+            else:
+                o = rng.choice(members)
+            if k == 'set':
+                return ['set', o, str(rng.choice(VALUE_MENU))]
+            return ['del', o]
+        if k == 'sparse':
+            return ['sparse', rng.random() < 0.6]
+        if k == 'setbase':
+            return ['setbase', rng.choice(gen.BASES)]
+        if k == 'copy-mutate':
+            return ['copy-mutate', rng.choice(members), str(rng.choice(VALUE_MENU))]
+        return [k]
+
+    def directed_case(self, rng):
+        """A history in three parts: (1) a prelude that steers the stored table into a boundary state - nothing
+        stored / everything null / a single stored outcome / the whole space stored -, (2) one to three changes of
+        representation in that state, (3) a random tail in which assignments dominate.  The random stream reaches
+        these states only by accident (all of up to eight stored outcomes deleted one by one)."""
+        c = gen.rand_dist_case(rng, nmin=1, nmax=3, amax=3, max_support=5,
+                               bases=['linear', 'linear', 'linear'] + gen.BASES)
+        c['scalar'] = c['n'] == 1 and c['space'] is None and rng.random() < 0.5
+        members = self.space_members(c)
+        kind = rng.choice(BOUNDARY_KINDS)
+        c['directed'] = kind
+        outs = [list(o) for o in c['outs']]
+        rng.shuffle(outs)
+        ops = []
+        if kind in ('del-all', 'zero-all', 'keep-one'):
+            victims = outs[1:] if kind == 'keep-one' else outs
+            for o in victims:
+                ops.append(['del', o] if kind != 'zero-all' else ['set', o, '0'])
+            if rng.random() < (0.7 if kind == 'zero-all' or not c['sparse'] else 0.3):
+                ops.append(['sparse', True])
+        else:
+            ms = [list(m) for m in members]
+            rng.shuffle(ms)
+            for o in ms[:12]:
+                ops.append(['set', o, str(rng.choice(VALUE_MENU[1:]))])
+        for _ in range(rng.randint(1, 3)):
+            k = rng.choice(['dense', 'dense', 'dense', 'sparse', 'sparse', 'setbase', 'copy'])
+            if k == 'sparse':
+                ops.append(['sparse', rng.random() < 0.5])
+            elif k == 'setbase':
+                ops.append(['setbase', rng.choice(gen.BASES)])
+            else:
+                ops.append([k])
+        # the tail opens with an assignment to a member (normalize on a null table would end the history: 0/0)
+        ops.append(['set', rng.choice(members), str(rng.choice(VALUE_MENU))])
+        for _ in range(rng.randint(1, 7)):
+            ops.append(self.rand_op(rng, c, members, TAIL_KINDS))
+        c['ops'] = ops
+        return c
 
     def space_members(self, c):
         sp = c.get('space')
@@ -110,6 +163,13 @@ class C09(object):
         r.features = gen.case_features(case) + ['scalar=%s' % scalar, 'len=%d' % len(case['ops'])]
         for op in case['ops']:
             r.features.append('op=%s' % op[0])
+        r.features.append('directed=%s' % case.get('directed'))
+        seen = set()
+
+        def note(f):
+            if f not in seen:
+                seen.add(f)
+                r.features.append(f)
 
         # initial state on both sides
         if scalar:
@@ -221,6 +281,14 @@ class C09(object):
                 break
             now = obs(d)
             stored_now = set(tuple(o) for o, _ in now['tab'])
+            # which boundary states of the stored table the history passed through, and what was done there
+            nb, n_space = len(before['tab']), len(space0)
+            bstate = 'nothing-stored' if nb == 0 else 'all-null' if all(gen.lin_of(v, base) == 0.0 for _, v in before['tab']) \
+                else 'one-stored' if nb == 1 and n_space > 1 else 'whole-space-stored' if nb == n_space and before['sparse'] else None
+            if bstate is not None:
+                note('%s:%s' % (bstate, op[0]))
+            if len(now['tab']) == 0:
+                note('reached=nothing-stored')
             # ---- oracle clauses that need no model
             if op[0] in ('set', 'del') and op[1] not in space0 and out != 'InvalidOutcome':
                 r.oracle_fail = 'op %d %s with an outcome outside the sample space gave %s, not InvalidOutcome' % (i, op, out)
@@ -232,6 +300,12 @@ class C09(object):
                 got = float(d[topy(written[0])])
                 if not (got == written[1] or (math.isnan(got) and math.isnan(written[1]))):
                     r.oracle_fail = 'read-back after d[o]=v: wrote %r, read %r' % (written[1], got)
+            elif op[0] in ('dense', 'sparse', 'normalize', 'setbase', 'copy', 'copy-mutate') and isinstance(out, str) \
+                    and out != 'ok' and (mout == 'ok' or self.is_rat(mout)):
+                # these take no outcome: in the table model they are total (normalize: on a table of non-null mass,
+                # the only kind it is run on), so there is nothing for them to reject
+                r.oracle_fail = 'op %d %s takes no outcome and is defined on every table (%d stored, %s), but raised %s' % (
+                    i, op, nb, 'sparse' if before['sparse'] else 'dense', out)
             if not r.oracle_fail and (now['space'] != space0 or now['alphabets'] != alph0):
                 r.oracle_fail = 'sample space or alphabets changed at op %d %s' % (i, op)
             if not r.oracle_fail and not scalar and d.get_rv_names() != names0:
